@@ -59,12 +59,13 @@ def refine(mismatches):
     """Turn differing block hashes into the first differing single request."""
     out = []
     for mm in mismatches[:8]:
-        t = mm.request.split(" ")
+        tz = mm.request.split(" ")[0] + " " if mm.request.startswith("@") else ""
+        t = core.strip_tz(mm.request).split(" ")
         if t[1] not in ("hjd", "hym"):
             out.append(mm)
             continue
         lop = "ljd" if t[1] == "hjd" else "lym"
-        req = "cal %s %s %s %s" % (lop, t[2], t[3], t[4])
+        req = tz + "cal %s %s %s %s" % (lop, t[2], t[3], t[4])
         ir, _ = core.ask(core.ORACLE, [req])
         mr, _ = core.ask(core.DRIVER, [req])
         ii, mi = ir[0].split(";"), mr[0].split(";")
@@ -75,9 +76,9 @@ def refine(mismatches):
             if a != b:
                 if lop == "ljd":
                     jd = int(t[3]) + k
-                    out.append(core.Mismatch("cal jdto %s %d" % (t[2], jd), a.replace("/", " "), b.replace("/", " ")))
+                    out.append(core.Mismatch(tz + "cal jdto %s %d" % (t[2], jd), a.replace("/", " "), b.replace("/", " ")))
                 else:
-                    out.append(core.Mismatch("cal lym %s %s %s  (entry %d: year:leap,len:first:last per month)" % (t[2], t[3], t[4], k), a, b))
+                    out.append(core.Mismatch(tz + "cal lym %s %s %s  (entry %d: year:leap,len:first:last per month)" % (t[2], t[3], t[4], k), a, b))
                 found = True
                 break
         if not found:
@@ -108,6 +109,20 @@ class CalSpec(Spec):
                         seen.add("cal hjd %s %d %d" % (cfg, s, s + BLOCK))
                     reqs += sorted(seen)
             sts.append(Stream("cal-days", reqs, weight=_weight, refine=refine))
+            # the two day blocks that hold every transition of the time-zone database (1747 .. 2106), asked
+            # under each local zone of core.TZS (thorough: under every zone the oracle knows): a conversion
+            # that reads the process's local zone goes wrong on single days only (a zone's offset changing
+            # sign, a daylight-saving jump at local midnight)
+            zs = [z for z in core.TZS if z]
+            if tier == "thorough":
+                from .zones import zone_names
+                zs = sorted(set(zs) | set(zone_names()))
+            reqs = []
+            for cfg in CFGS:
+                for z in zs:
+                    for b in (2359296, 2424832):
+                        reqs.append("@tz=%s cal hjd %s %d %d" % (z, cfg, b, b + BLOCK))
+            sts.append(Stream("cal-days-zones", reqs, weight=_weight, refine=refine))
             # single conversions in RANDOM order, one process per configuration: an answer that depends on the
             # calls made before it (a memo keyed wrongly, a cache that is not cleared) differs from the
             # stateless model. Half the days come from small hot sets (table seams, cycle ends, year starts)
@@ -158,6 +173,18 @@ class CalSpec(Spec):
                         seen.add("cal hym %s %d %d" % (cfg, s, s + 256))
                     reqs += sorted(seen)
             sts.append(Stream("cal-years", reqs, weight=_weight, refine=refine))
+            # the years 1024 .. 2303 of every calendar (they hold 1747 .. 2106 CE in all of them) under local zones
+            zs = ["America/New_York", "Asia/Tehran", "Europe/London", "America/Sao_Paulo"]
+            if tier == "thorough":
+                zs = [z for z in core.TZS if z]
+            reqs = []
+            for cfg in CFGS:
+                for z in zs:
+                    for y in range(1024, 2304, 256):
+                        if not self.ylimit or (self.ylimit[0] <= y and y + 256 <= self.ylimit[1] + 1):
+                            reqs.append("@tz=%s cal hym %s %d %d" % (z, cfg, y, y + 256))
+            if reqs:
+                sts.append(Stream("cal-years-zones", reqs, weight=_weight, refine=refine))
         return sts
 
     def exhaustive(self, tier):
